@@ -53,7 +53,9 @@ def expected_dict(m):
     d["volatile"] = bool(m["volatile"])
     ptrs = [dict(ptr=op, const=bool(c), volatile=bool(v)) for op, c, v in m["ptrs"]]
     if m["kind"] == "fptr":
-        d["declarator"] = dict(pointer=ptrs, func=dict(pointer=[dict(ptr="*", const=False, volatile=False)], name=m["name"]))
+        inner = m.get("inner") or [["*", False, False]]
+        d["declarator"] = dict(pointer=ptrs, func=dict(pointer=[dict(ptr=op, const=bool(c), volatile=bool(v)) for op, c, v in inner],
+                                                       name=m["name"]))
         d["params"] = [expected_dict(p) for p in m["params"]]
     elif m["kind"] == "parr":
         d["declarator"] = dict(pointer=ptrs, func=dict(pointer=[dict(ptr="*", const=bool(m.get("inner_const")), volatile=False)],
@@ -167,6 +169,28 @@ def c_counterpart(m):
     return " ".join(toks)
 
 
+NATIVE_C = ("int", "long", "double", "float", "short", "char", "unsigned int", "unsigned long", "size_t", "bool", "void",
+            "long long", "unsigned short", "int32_t", "int64_t", "uint32_t", "uint64_t")
+
+
+def c_counterpart_fptr(m, name):
+    """Documented C form of a function-pointer declaration: the result and the parameters in their C forms, every
+    '&' of the grouped declarator a '*' (a reference is passed as a pointer in the C API).  None when a parameter
+    is outside the plain native map."""
+    if m["kind"] != "fptr":
+        return None
+    res = c_counterpart(dict(kind="var", base=m["base"], const=m["const"], volatile=m["volatile"], ptrs=m["ptrs"], array=[]))
+    if res is None or m["base"] not in NATIVE_C:
+        return None
+    ps = []
+    for p in m["params"]:
+        if p["kind"] != "var" or p.get("array") or p["base"] not in NATIVE_C or any(op == "&" for op, _c, _v in p["ptrs"]):
+            return None
+        ps.append((c_counterpart(p) + " " + (p.get("name") or "")).strip())
+    inner = " ".join("*" + (" const" if c else "") + (" volatile" if v else "") for _op, c, v in (m.get("inner") or [["*", False, False]]))
+    return "%s (%s %s)(%s)" % (res, inner, name, ", ".join(ps))
+
+
 def model_var_text(m, name):
     """Independent printer: C++ text of a variable of the model's type called `name`."""
     toks = []
@@ -184,7 +208,8 @@ def model_var_text(m, name):
     s = " ".join(toks)
     if m["kind"] == "fptr":
         ps = ", ".join(model_var_text(p, p.get("name") or "") for p in m["params"])
-        return "%s (*%s)(%s)" % (s, name, ps)
+        inner = " ".join(op + (" const" if c else "") + (" volatile" if v else "") for op, c, v in (m.get("inner") or [["*", False, False]]))
+        return "%s (%s %s)(%s)" % (s, inner, name, ps)
     if m["kind"] == "parr":
         return "%s (*%s%s)%s" % (s, "const " if m.get("inner_const") else "", name, "".join("[%s]" % a for a in m["array"]))
     s += " " + name
@@ -297,6 +322,12 @@ def process_decl(idx, d, tu):
                     problems.append(("gen_arg_as_c-raises", "gen_arg_as_c raises %s: %s" % (type(e).__name__, e)))
                     continue
                 tu.add_pair(idx, "param%d:gen_arg_as_c" % i, cc + " " + pm["name"], rcc, pm["name"])
+            ccf = c_counterpart_fptr(pm, pm["name"])
+            if ccf is not None:
+                try:
+                    tu.add_pair(idx, "param%d:gen_arg_as_c" % i, ccf, p.gen_arg_as_c(), pm["name"])
+                except Exception as e:
+                    problems.append(("gen_arg_as_c-raises", "gen_arg_as_c raises %s: %s" % (type(e).__name__, e)))
         # result as a variable
         rm = dict(kind="var", base=m["base"], const=m["const"], volatile=m["volatile"], ptrs=m["ptrs"], array=[])
         if not (m["base"] == "void" and not m["ptrs"]):
@@ -311,6 +342,12 @@ def process_decl(idx, d, tu):
             tu.add_pair(idx, "var:gen_arg_as_cxx", d["cxx"].rstrip(";"), rc, name)
         except Exception as e:
             problems.append(("gen_arg_as_cxx-raises", "gen_arg_as_cxx raises %s: %s" % (type(e).__name__, e)))
+        ccf = c_counterpart_fptr(m, name)
+        if ccf is not None:
+            try:
+                tu.add_pair(idx, "var:gen_arg_as_c", ccf, ast.gen_arg_as_c(), name)
+            except Exception as e:
+                problems.append(("gen_arg_as_c-raises", "gen_arg_as_c raises %s: %s" % (type(e).__name__, e)))
     # ---- O2 round trip
     if not d["has_default"]:
         try:
